@@ -314,6 +314,20 @@ def cmdPct (a : Args) : String :=
     showO (pctCell e Gen.Zonal.stridesBits t n : Option R)
   | _, _ => "bad-request"
 
+/-- `zstrides fz=v,v,.. uz=v,v,..` : the loop program translated from `_strides` (`Gen.Zonal.stridesProg`), run by
+    the interpreter of Model/ZonalLoop.lean on two arrays of finite numbers (`-` = empty); the model's `strides`
+    is printed next to it -/
+def cmdStrides (a : Args) : String :=
+  let lst := fun (k : String) => match a.get? k with
+    | some "-" => some []
+    | _ => (a.nums? k).map (fun l => l.filterMap (fun n => (toX n).toFin?))
+  match lst "fz", lst "uz" with
+  | some fz, some uz =>
+    let arrs : String → List R := fun nm => if nm = "a0" then fz else if nm = "a1" then uz else []
+    let got := Gen.Zonal.stridesProg.run arrs (fz.length + 1)
+    s!"ok={if Gen.Zonal.stridesProg.ok then 1 else 0};prog={showNs got};model={showNs (strides fz 0 uz)}"
+  | _, _ => "bad-request"
+
 /-- `zfacts` : the structural facts the model is run with -/
 def cmdFacts (_ : Args) : String :=
   let b := fun (x : Bool) => if x then "1" else "0"
@@ -326,6 +340,6 @@ def cmdFacts (_ : Args) : String :=
 
 def handlers : List (String × (Args → String)) :=
   [("zstats", cmdStats), ("zraster", cmdRaster), ("zdask", cmdDask), ("xtab", cmdXtab),
-   ("xtabdask", cmdXtabDask), ("xtab3", cmdXtab3), ("xtab3dask", cmdXtab3Dask), ("xpct", cmdPct), ("zfacts", cmdFacts)]
+   ("xtabdask", cmdXtabDask), ("xtab3", cmdXtab3), ("xtab3dask", cmdXtab3Dask), ("xpct", cmdPct), ("zstrides", cmdStrides), ("zfacts", cmdFacts)]
 
 end XrsVerif.Driver.ZonalCmd
